@@ -1,5 +1,6 @@
 import DimodModel.GateBag
 import Generated.Gates
+import Generated.HocLayout
 
 /-! # C15 — higher-order reduction: executable models (core Lean only)
 
@@ -489,7 +490,7 @@ structure RecRow where
 /-- the child's `SampleSet` -/
 structure SampleSetM where
   vars : List Label            -- `response.variables`
-  names : List String          -- `record.dtype.names` without `'sample'`, `'energy'`
+  names : List String          -- `record.dtype.names` without the names of `Generated.HocLayout.notCarried` (`'sample'`, `'energy'`)
   rows : List RecRow
   info : List (String × String)  -- `response.info` (keys with opaque values), insertion order
   vt : VT                      -- `response.vartype`
@@ -616,11 +617,12 @@ def polymorphRecord (poly : List (LTerm × Rat)) (order : List Label) (reduction
       match (if keep then some none else (colIdxs resp.vars order).map some) with
       | none => .error .indexValueError
       | some sel =>
-        if resp.names.contains "penalty_satisfaction" then .error .duplicateField else
+        -- a field name of the child equal to one of the leading fields (`penalty_satisfaction`; `sample` and `energy` are not carried over)
+        if resp.names.any (fun n => Generated.HocLayout.headFields.contains n) then .error .duplicateField else
         let info0 : List (String × InfoVal) := resp.info.map (fun e => (e.1, InfoVal.opaque e.2))
-        let info1 := setInfo info0 "reduction" (.reduction reduction)
+        let info1 := setInfo info0 Generated.HocLayout.reductionKey (.reduction reduction)
         .ok { vars := if keep then resp.vars else order,
-              fields := ["sample", "energy", "penalty_satisfaction"] ++ resp.names,
+              fields := Generated.HocLayout.headFields ++ resp.names,
               satDtype := dt,
               rows := (List.range kept.length).map (fun i =>
                 { sample := selectCols sel (kept.getD i ⟨[], 0, []⟩).sample,
@@ -629,7 +631,7 @@ def polymorphRecord (poly : List (LTerm × Rat)) (order : List Label) (reduction
                   vectors := (kept.getD i ⟨[], 0, []⟩).vectors }),
               info := match strength with
                 | none => info1
-                | some q => setInfo info1 "penalty_strength" (.strength q),
+                | some q => setInfo info1 Generated.HocLayout.strengthKey (.strength q),
               vt := resp.vt }
 
 /-- `HigherOrderComposite(child).sample_poly(…)` returning the whole sample set: `child` maps the quadratic model and
